@@ -96,6 +96,7 @@ func (e *Env) Now() int64 { return int64(time.Since(e.start)) }
 
 // Log appends to the in-memory history. It never yields, never draws
 // randomness and never reads a real clock.
+//
 //go:norace
 func (e *Env) Log(actor int, kind, format string, a ...any) {
 	msg := format
@@ -110,6 +111,7 @@ func (e *Env) Log(actor int, kind, format string, a ...any) {
 
 // Shape adds a time-free token to the canonical shape of the run (used to count
 // distinct interleavings reached).
+//
 //go:norace
 func (e *Env) Shape(tok string) {
 	e.mu.Lock()
@@ -174,15 +176,19 @@ func (e *Env) FaultCount(kind string) int {
 }
 
 //go:norace
-func (e *Env) Check()        { e.mu.Lock(); e.stats.Checks++; e.mu.Unlock() }
+func (e *Env) Check() { e.mu.Lock(); e.stats.Checks++; e.mu.Unlock() }
+
 //go:norace
 func (e *Env) ChecksN(n int) { e.mu.Lock(); e.stats.Checks += n; e.mu.Unlock() }
+
 //go:norace
 func (e *Env) Inconclusive() { e.mu.Lock(); e.stats.Inconclusive++; e.mu.Unlock() }
+
 //go:norace
-func (e *Env) NonTrivial()   { e.mu.Lock(); e.nontriv = true; e.mu.Unlock() }
+func (e *Env) NonTrivial() { e.mu.Lock(); e.nontriv = true; e.mu.Unlock() }
 
 // LastDisturbance is the fake time at which the last stall ended or fault fired.
+//
 //go:norace
 func (e *Env) LastDisturbance() int64 {
 	e.mu.Lock()
@@ -195,6 +201,7 @@ func (e *Env) LastDisturbance() int64 {
 
 // StallsOverlapping sums the durations of injected stalls that overlap the
 // fake-time window [from, to]: the slack an oracle grants a latency bound.
+//
 //go:norace
 func (e *Env) StallsOverlapping(from, to int64) int64 {
 	e.mu.Lock()
@@ -213,6 +220,7 @@ func (e *Env) StallTotal() int64 { e.mu.Lock(); defer e.mu.Unlock(); return e.st
 
 // StopStalls turns the yield oracle off (used for the fault-free tail of a run
 // in which liveness is asserted).
+//
 //go:norace
 func (e *Env) StopStalls() { e.mu.Lock(); e.stallOff = true; e.mu.Unlock() }
 
@@ -234,6 +242,7 @@ func (e *Env) SleepUntil(at int64) {
 
 // Invoke / Return bracket a public-API call made by an actor, for the
 // "operation never returned" watchdog and for linearizability stamps.
+//
 //go:norace
 func (e *Env) Invoke(actor int, what string) (id int, seq int) {
 	t := e.Now()
@@ -262,6 +271,7 @@ func (e *Env) Return(actor, id int, what string) (seq int) {
 }
 
 // ReturnSeq logs a return event without touching the pending table (for operations bracketed by the rig itself).
+//
 //go:norace
 func (e *Env) ReturnSeq(actor int, what string) (seq int) {
 	t := e.Now()
@@ -279,6 +289,7 @@ func (e *Env) ReturnSeq(actor int, what string) (seq int) {
 }
 
 // Pending lists API calls that have not returned.
+//
 //go:norace
 func (e *Env) Pending() []string {
 	e.mu.Lock()
@@ -347,6 +358,8 @@ func (e *Env) yield(op deadlock.Op, lock unsafe.Pointer, pc uintptr) {
 				if int(h%1000000) < sc.RatePPM {
 					h = mix(h)
 					switch {
+					case sc.MinNs > 0 && sc.MaxNs > sc.MinNs:
+						ns = sc.MinNs + int64(mix(h+1)%uint64(sc.MaxNs-sc.MinNs))
 					case h%4 < 2 || sc.MaxNs <= 1:
 						ns = 1 // "everything else runnable goes first"
 					default:
@@ -441,7 +454,9 @@ func (e *Env) yieldRace(op deadlock.Op, pc uintptr) {
 			return
 		}
 		h = mix(h)
-		if h%4 < 2 || sc.MaxNs <= 1 {
+		if sc.MinNs > 0 && sc.MaxNs > sc.MinNs {
+			ns = sc.MinNs + int64(mix(h+1)%uint64(sc.MaxNs-sc.MinNs))
+		} else if h%4 < 2 || sc.MaxNs <= 1 {
 			ns = 1
 		} else {
 			bits := 1
